@@ -689,6 +689,10 @@ pub fn tcp_listen(addr: SocketAddr) -> io::Result<crate::net::TcpListener> {
 
 pub(crate) fn poll_accept(addr: &SocketAddr, cx: &mut Context<'_>) -> Poll<io::Result<crate::net::TcpStream>> {
     let mut w = world();
+    if let Some(k) = w.accept_errors.iter().position(|(p, _)| *p == addr.port()) {
+        let (_, errno) = w.accept_errors.remove(k);
+        return Poll::Ready(Err(io::Error::from_raw_os_error(errno)));
+    }
     match w.listeners.get_mut(addr) {
         Some(l) => {
             if let Some(s) = l.backlog.pop_front() {
